@@ -138,6 +138,37 @@ type c17OpRec struct {
 	Desc   string `json:"op"`
 }
 
+// c17KeptErrs: errors the library handed out for unknown names, kept by the program (process-wide, up to 64) and
+// formatted again later from whatever goroutine comes by.
+type c17ErrKeeper struct {
+	mu   sync.Mutex
+	errs []error
+}
+
+var c17KeptErrs c17ErrKeeper
+
+func (k *c17ErrKeeper) keep(err error) {
+	k.mu.Lock()
+	if len(k.errs) < 64 {
+		k.errs = append(k.errs, err)
+	} else {
+		k.errs[len(err.Error())%64] = err
+	}
+	k.mu.Unlock()
+}
+
+func (k *c17ErrKeeper) formatSome() {
+	k.mu.Lock()
+	errs := append([]error{}, k.errs...)
+	k.mu.Unlock()
+	for i, e := range errs {
+		if i%4 == 0 {
+			_ = e.Error()
+			_ = fmt.Sprintf("%v", e)
+		}
+	}
+}
+
 func c17Concurrent(c *Ctx, i int, r *gen.R) {
 	ns := fmt.Sprintf("h%d-%d-", c.Shard, i)
 	names := []string{ns + "a", ns + "b", ns + "c", ns + "d"}[:r.Range(1, 4)]
@@ -177,6 +208,7 @@ func c17Concurrent(c *Ctx, i int, r *gen.R) {
 		switch s.op {
 		case 'R':
 			decoration.RegisterDecorationName(s.name, c17Value(s.val))
+			c17KeptErrs.formatSome() // errors handed out earlier are printed again at any later time
 		case 'N':
 			d := decoration.Named(s.name)
 			if d != decoration.EmptyDecoration {
@@ -198,10 +230,16 @@ func c17Concurrent(c *Ctx, i int, r *gen.R) {
 					out.Val = m[1]
 					c.Rec.Count("renders_by_name_identifying_a_registration", 1)
 				}
-			} else if text, rerr := tt.Render(); rerr == nil || text != "" {
-				mu.Lock()
-				listProblems = append(listProblems, fmt.Sprintf("render by name %q: SetDecorationNamed failed (%v) but Render gave %q, %v", s.name, err, text, rerr))
-				mu.Unlock()
+			} else {
+				// the error is the caller's to keep, print and compare - now, while others go on registering, and later
+				msg := err.Error() + fmt.Sprintf(" %v %+v %#v", err, err, err.Error())
+				c17KeptErrs.keep(err)
+				c.Rec.Count("errors_for_unknown_names_formatted_while_registrations_go_on", 1)
+				if text, rerr := tt.Render(); rerr == nil || text != "" {
+					mu.Lock()
+					listProblems = append(listProblems, fmt.Sprintf("render by name %q: SetDecorationNamed failed (%s) but Render gave %q, %v", s.name, msg, text, rerr))
+					mu.Unlock()
+				}
 			}
 		case 'L':
 			all := decoration.RegisteredDecorationNames()
